@@ -50,6 +50,11 @@ def main():
         "exhaustive": bool(exhaustive) and all(exhaustive.values()) and evals > 0 and not any(k.endswith(":random") and v for k, v in classes.items()),
     }
     cov.update(extra)
+    if os.environ.get("VERIF_EXTRA"):
+        try:
+            cov.update(json.loads(os.environ["VERIF_EXTRA"]))
+        except Exception:
+            pass
     ev = {
         "property_id": pid,
         "tier": tier,
